@@ -39,7 +39,8 @@ def fs_fact(name, pathname):
 
 def fs_axioms(pathname):
     e, d, f, l = (fs_fact(n, pathname) for n in ("exists", "is_dir", "is_file", "is_symlink"))
-    return [z3.Implies(d, e), z3.Implies(f, e), z3.Not(z3.And(d, f))]
+    le = fs_fact("lexists", pathname)
+    return [z3.Implies(d, e), z3.Implies(f, e), z3.Not(z3.And(d, f)), z3.Implies(e, le), z3.Implies(l, le)]
 
 
 def path_id(eng, st, v):
@@ -225,6 +226,42 @@ def install_env(ctx, eng, faults=True, fail_only=None):
         return h
     for nm in ("exists", "is_dir", "is_file", "is_symlink"):
         S(r"^(std::path::)?Path::%s$" % nm, s_exists(nm))
+
+    # stat/lstat of a path: succeeds iff the path resolves (stat) / the entry exists (lstat); kind questions on the
+    # result are the same facts Path::is_file & co. ask about, so an edit that switches probes is compared like for like
+    def s_pmeta(follow):
+        def h(eng, st, callee, args, dty):
+            p = path_id(eng, st, args[0])
+            pn = getattr(p, "name", repr(p))
+            tied = st.ghost.setdefault("fs_tied", set())
+            if pn not in tied:
+                tied.add(pn)
+                st.pc += fs_axioms(pn)
+            there = fs_fact("exists" if follow else "lexists", pn)
+            m = OpaqueV("std::fs::Metadata", "%s_of_%s" % ("stat" if follow else "lstat", re.sub(r"\W+", "_", pn)), {"path": pn, "follow": follow})
+            nm = "metadata" if follow else "symlink_metadata"
+            return [Outcome(ok(m), [there], events=[Event("Path::" + nm, [p], "ok")]),
+                    Outcome(err("std::io::Error"), events=[Event("Path::" + nm, [p], "err")])]
+        return h
+    S(r"^(std::path::)?Path::metadata$|^(std::fs::)?metadata::<", s_pmeta(True))
+    S(r"^(std::path::)?Path::symlink_metadata$|^(std::fs::)?symlink_metadata::<", s_pmeta(False))
+
+    def s_mkind(q):
+        def h(eng, st, callee, args, dty):
+            m = deref_ref(eng, st, args[0])
+            if not (isinstance(m, OpaqueV) and "path" in m.attrs):
+                nm = getattr(m, "name", None) or "m%d" % next(eng.fresh_ids)
+                return Outcome(BoolV(z3.Bool("%s_%s" % (q, re.sub(r"\W+", "_", str(nm))))))
+            pn, follow = m.attrs["path"], m.attrs["follow"]
+            link = fs_fact("is_symlink", pn)
+            if q == "is_symlink":
+                return Outcome(BoolV(z3.BoolVal(False) if follow else link))
+            f = fs_fact(q, pn)
+            return Outcome(BoolV(f if follow else z3.And(f, z3.Not(link))))
+        return h
+    for q in ("is_file", "is_dir", "is_symlink"):
+        S(r"^(std::fs::)?(Metadata|FileType)::%s$" % q, s_mkind(q))
+    S(r"^(std::fs::)?Metadata::file_type$", lambda e, st, c, a, d: Outcome(deref_ref(e, st, a[0])))
 
     def s_try_exists(eng, st, callee, args, dty):
         p = path_id(eng, st, args[0])
